@@ -312,6 +312,7 @@ func (c *Client) AddParam(key, val string) *Client {
 
 // SetParam sets a single query parameter and its value in the client.
 func (c *Client) SetParam(key, val string) *Client {
+	c.params.Del(key)
 	c.params.Set(key, val)
 	return c
 }
